@@ -80,4 +80,12 @@ CHECKS = {
         "CryptContext hashes with the first scheme, verifies with any and asks for an update iff the first scheme does not identify.",
    note="Trusted: z3; digest/HMAC primitives uninterpreted; inspectors stubbed for the cost arithmetic. The bcrypt wheel and "
         "hashlib.pbkdf2_hmac are only exercised by a finite real-primitive battery (stated as enumeration)."),
+ "C16": dict(engine="E1-zshadow", category="other", design_ref="DESIGN.md §4 C16",
+   technique="inductive step by symbolic execution: one real operation from an arbitrary valid state over a symbolic-key dict model, export read back by an independent reader",
+   text="From every valid state shape within the bound (symbolic 1-byte user/realm names, live records, lazily deleted slots, comment "
+        "lines) one real HtpasswdFile/HtdigestFile operation with symbolic arguments runs; the solver decides every key comparison, "
+        "and on each feasible path an independent reader of to_string() must return exactly the model's records, each once, in order; "
+        "every text up to the bound is loaded and re-exported the same way; field validation for all contents.",
+   note="Trusted: z3; models of render_bytes/join_bytes/BytesIO (validated against the real helpers each run); the dict model. The "
+        "inductive argument needs the representation invariant stated in the evidence. Outside: file-system I/O, longer names."),
 }
